@@ -262,7 +262,7 @@ func (w *vC16World) checkDone() {
 func VerifC16_ModuleScript() {
 	verif.NoPanic()
 	verif.SetGhost("clock-concrete", 1)
-	verif.Bound("C16 script", "P-256; owner modules: A (known to the device; activation round, then 1..2 rounds: messages x (3 symbolic bytes) and y (2) in the first, x in the second; optional IsMoreServiceInfo block after the first), then U (unknown to the device), then B (known; one message whose device reply of {1,40} (quick) / {1,23,24,40..45,80,120} (thorough) symbolic bytes spans several device messages at the small MTU; optionally a last message sent in the round in which it reports completion, with or without asking to block the peer); the device also has module Z that the owner never activates; device send MTU in {64, 1300}; owner send MTU in {64, 1300}; one cooperative schedule")
+	verif.Bound("C16 script", "P-256; owner modules: A (known to the device; activation round, then 1..2 rounds: messages x (3 symbolic bytes) and y (2) in the first, x in the second; optional IsMoreServiceInfo block after the first), then U (unknown to the device), optionally E (known; activation and one message in the round in which it reports completion), then B (known; one message whose device reply of {1,40} (quick) / {1,23,24,40..45,80,120} (thorough) symbolic bytes spans several device messages at the small MTU; optionally a last message sent in the round in which it reports completion, with or without asking to block the peer); the device also has module Z that the owner never activates; device send MTU in {64, 1300}; owner send MTU in {64, 1300}; one cooperative schedule")
 	devSend := []uint16{64, 1300}[verif.Choose("devmtu", 2)]
 	ownSend := []uint16{64, 1300}[verif.Choose("ownmtu", 2)]
 	w := vMkC16(vcP256, devSend, ownSend)
@@ -287,6 +287,7 @@ func VerifC16_ModuleScript() {
 	// the device's answers to them have arrived (as the FSIM owner modules do)
 	roundsA = append(roundsA, vORound{})
 	A := w.addOwner("A", roundsA...)
+	U := w.addOwner("U", vORound{msgs: []vOMsg{{"active", vCborTrue()}}}, vORound{})
 	// module E (known to the device) sends its activation and one message and reports completion in
 	// the same round: the device's activation answer arrives when the next module is already current
 	var E *vOwnerMod
@@ -295,7 +296,6 @@ func VerifC16_ModuleScript() {
 		E = w.addOwner("E", vORound{msgs: []vOMsg{{"active", vCborTrue()}, {"e", verif.Bytes("e", 2)}}, final: true})
 		dE = w.addDevice("E", nil)
 	}
-	U := w.addOwner("U", vORound{msgs: []vOMsg{{"active", vCborTrue()}}}, vORound{})
 	replyLens := []int{1, 40}
 	if verif.Tier() > 0 {
 		replyLens = []int{1, 23, 24, 40, 41, 42, 43, 44, 45, 80, 120}
